@@ -72,15 +72,13 @@ def _detect_crossing(section_coord: str, state_old: np.ndarray, state_new: np.nd
     if f_old * f_new >= 0.0:
         return False, 0.0
 
-    # Direction check
-    if section_coord == "q3":
-        good_dir = state_new[n_dof + 2] > 0.0
-    elif section_coord == "q2":
-        good_dir = state_new[n_dof + 1] > 0.0
-    elif section_coord == "p3":
-        good_dir = rhs_new[2] > 0.0
-    else:  # "p2"
-        good_dir = rhs_new[1] > 0.0
+    # Direction check: the section coordinate must move the way it leaves the
+    # seeds, which are lifted with a positive conjugate coordinate
+    # (dq/dt = omega * p > 0 on q-sections, dp/dt = -omega * q < 0 on p-sections)
+    if section_coord == "q3" or section_coord == "q2":
+        good_dir = f_new > f_old
+    else:  # "p3", "p2"
+        good_dir = f_new < f_old
 
     if not good_dir:
         return False, 0.0
